@@ -269,6 +269,9 @@ pub fn m_module(m: &ast::Module) -> Vec<Sx> {
     let mut out = Vec::new();
     for rd in &m.root_definitions {
         match rd {
+            // a prototype (`generate_function(id, only_declare = true)`) declares, the definition that follows defines:
+            // only definitions are compared and run
+            ast::RootDefinition::Function(f) if f.body.is_none() => out.push(node("proto", vec![a(&f.name.node), a(&f.params.len().to_string())])),
             ast::RootDefinition::Function(f) => out.push(m_func(f)),
             ast::RootDefinition::GlobalVariable(g) => match m_type(&g.global_type) {
                 Some((tn, mods)) if g.attributes.is_empty() && mods == [ast::TypeModifier::AddressSpace(ast::AddressSpace::Constant)] => {
@@ -650,10 +653,26 @@ pub fn run_program(src: &str, only: Option<(&str, &[Vec<V>])>, nvec: usize, rng:
                     let got = me.run(emitted_name, &top, &statics);
                     let why = msleval::take_stuck();
                     if let Err(diff) = cmp(&got) {
-                        if got.is_none() && matches!(why, Some((Stuck::Uninit, _))) {
-                            // the source reads an `out` parameter or a local before writing it: undefined in the source as well
-                            hist.add("gen:vector:uninitialised-read");
-                            continue;
+                        if let (None, Some((Stuck::Uninit, msg))) = (&got, &why) {
+                            // undefined in the source as well only if the variable is a local of the source or the
+                            // trampoline's copy of an `out` parameter (an `inout` copy must have been initialised)
+                            let declared = msg.split('`').nth(1).unwrap_or("");
+                            let is_copy = declared.starts_with("__");
+                            let copy_of_out = is_copy && {
+                                let pname = &declared[2..];
+                                let var_id = p.vars.split(',').find_map(|v| {
+                                    let f: Vec<&str> = v.split(':').collect();
+                                    if f.len() == 3 && f[1] == pname { Some(f[0].to_string()) } else { None }
+                                });
+                                match var_id {
+                                    Some(id) => p.prog.iter().any(|f| f.args()[2].args().iter().any(|q| q.args()[0].atom() == id && q.args()[1].atom() == "out")),
+                                    None => false,
+                                }
+                            };
+                            if !is_copy || copy_of_out {
+                                hist.add("gen:vector:uninitialised-read");
+                                continue;
+                            }
                         }
                         if got.is_none() && matches!(why, Some((Stuck::InvalidSource, _))) {
                             // e.g. `switch` on a float: accepted by rssl's type checker, valid neither in HLSL nor in Metal
@@ -856,6 +875,10 @@ pub fn alias_program(rng: &mut Rng) -> String {
     if let Some(d2) = second {
         decl.push(format!("{}{} p2", if d2 == "in" { "".to_string() } else { format!("{} ", d2) }, t));
     }
+    if rng.chance(1, 4) {
+        // a prototype first: `generate_function(id, only_declare = true)`
+        out.push_str(&format!("{} h({});\n\n", if void_ret { "void" } else { t }, decl.join(", ")));
+    }
     out.push_str(&format!("{} h({})\n{{\n", if void_ret { "void" } else { t }, decl.join(", ")));
     if d1 == "out" {
         out.push_str(&format!("    p1 = {};\n", lit(rng)));
@@ -864,6 +887,9 @@ pub fn alias_program(rng: &mut Rng) -> String {
         out.push_str(&format!("    p2 = {};\n", lit(rng)));
     }
     let mut pool: Vec<String> = vec![
+        // `%` on floats is `metal::fmod`
+        "p1 = p1 % g1;".into(),
+        format!("g1 = g1 % {};", lit(rng)),
         "p1 = p1 + g1;".into(),
         "g1 = g1 + p1;".into(),
         format!("g1 += {};", lit(rng)),
@@ -883,8 +909,12 @@ pub fn alias_program(rng: &mut Rng) -> String {
         }
     }
     let n = 2 + rng.below(4);
-    for _ in 0..n {
+    for k in 0..n {
         out.push_str(&format!("    {}\n", rng.pick(&pool)));
+        if void_ret && k == 0 && rng.chance(1, 3) {
+            // `return;` (the parameters written so far are copied out all the same)
+            out.push_str("    if (p1 > g2)\n    {\n        return;\n    }\n");
+        }
     }
     if !void_ret {
         out.push_str(&format!("    return {};\n", rng.pick(&["g1 + p1", "p1", "g1", "g2 - p1"])));
